@@ -168,6 +168,11 @@ class ReconciliationInput:
             yield self
             return
 
+        # The resolutions are rebuilt from the serialized form, in which nodes
+        # are addressed by name: every node needs one (e.g. an unnamed root
+        # that carries a prescribed synteny)
+        self.label_internal()
+
         for object_tree, species_tree in product(
             binarize(self.object_tree),
             binarize(self.species_lca.tree),
